@@ -58,7 +58,12 @@ def parseReq (p : Pat) (toks : List String) : Req :=
     | [k, v] => some (nat! k, nat! v)
     | _ => none)
   { vals := vals, types := types, attrs := attrs, keys := (kvAll toks "ak").map nat!,
-    entries := ((kvGet toks "e").map nat!).getD 1 }
+    -- blackboard: `e` entries with keys 0..e-1, `dup=1` adds key 0 once more (a duplicate only if it is there already)
+    entries := ((kvGet toks "e").map nat!).getD 1 + (if (kvGet toks "dup") == some "1" then 1 else 0),
+    lateFail := (match p with
+      | .bb => (kvGet toks "dup") == some "1" && ((kvGet toks "e").map nat!).getD 1 ≥ 1
+      | .ev => false
+      | _ => types.any (fun t => t.name == "iox2::Flatbuffer") && (p == .rr || (types.head?.map (·.name)) == some "iox2::Flatbuffer")) }
 
 def showType (t : TypeDetail) : String :=
   (if t.variant = 0 then "F" else "D") ++ ":" ++ t.name ++ ":" ++ toString t.size ++ ":" ++ toString t.align
